@@ -100,7 +100,15 @@ def check_direct_build_closure(run, funcs, pid):
                         run.suspect.append('%s %s: wrong neighbour iterator for periodic=%s' % (pid, tagc, periodic))
                     else:
                         okq = z3.And([to_z3(a) == b for a, b in zip(nnargs[1].items, gl)])
-                        run.prove('%s %s: the neighbour search is centred on the generator' % (pid, tagc), H, z3.Not(okq), timeout=20, cross=False)
+                        vq, mq = run.prove('%s %s: the neighbour search is centred on the generator' % (pid, tagc), H, z3.Not(okq), timeout=20, cross=False, on_sat='caller')
+                        if vq == 'sat':
+                            from . import oracle as OR
+                            what = '%s %s: the neighbour search is not centred on the position the cell is built at' % (pid, tagc)
+                            extra = []
+                            for d_ in (3, 2, 1):
+                                extra += (OR.upper_wall_periodic_scenarios(d_) if periodic else []) + OR.wall_scenarios(d_, periodic) + OR.pair_scenarios(d_, periodic)
+                            if not OR.confirm_family(pid, run, what, 3, periodic, None, (0, 1), extra=extra):
+                                run.suspect.append(what + ' - no public-API scenario shows a difference')
                         if periodic:
                             okw = z3.And([to_z3(a) == to_z3(b) for a, b in zip(nnargs[2].items, r['width'].items)])
                             run.prove('%s %s: the period handed to the search is the box width' % (pid, tagc), H, z3.Not(okw), timeout=20, cross=False)
